@@ -243,6 +243,7 @@ func init() {
 		if err := json.Unmarshal(raw, &c); err != nil {
 			return failf("REPLAY-HARNESS-ERROR: %v", err)
 		}
+		fixNils(c.Instances)
 		fl := checkSchemaCase(&c, refmodel.D2020, nil)
 		if isHarnessFailure(fl) {
 			return failf("REPLAY-HARNESS-ERROR: %s", fl.Msg)
